@@ -262,6 +262,28 @@ func TestVerif_C08(t *testing.T) {
 	if t.Failed() {
 		return
 	}
+	if vfOnlySub("huge") && !vfReplayMode() && vfShard() < 3 {
+		// valid documents of 70 KB - 2.5 MB, whole and cut
+		n := []int{70000, 1100000, 2500000}[vfShard()]
+		for _, kind := range []string{"json-array", "geojson-decider-last"} {
+			doc := vfBig(kind, n)
+			for _, L := range []uint32{0, 65536, 65537, 1 << 20, uint32(len(doc) - 1), uint32(len(doc)), uint32(len(doc) + 1), 0xffffffff} {
+				lim := L
+				c := c08Case{Doc: doc, Limit: &lim}
+				r := c08Check(c)
+				r.Labels = append(r.Labels, "huge")
+				vfStats.record(r, func() any { return map[string]any{"sub": "huge", "kind": kind, "len": len(doc), "limit": L} })
+				if r.Err != nil {
+					vfEnumFail(t, "C08", "gen", c08Case{Doc: doc[:min(len(doc), 200)], Limit: &lim}, fmt.Errorf("%s document of %d bytes: %v", kind, len(doc), r.Err))
+					return
+				}
+			}
+		}
+		vfStats.Subchecks["huge"] = "documents of 70 KB / 1.1 MB / 2.5 MB (one size per shard 0-2) at limits {0, 65536, 65537, 1 MiB, len-1, len, len+1, 2^32-1}"
+	}
+	if t.Failed() {
+		return
+	}
 	if vfOnlySub("deep") {
 		vfRun(t, vfSub[c08Case]{
 			Prop: "C08", Name: "deep", Checks: vfN(24, 400),
